@@ -55,7 +55,7 @@ var idents = func() (a [maxSubs]*subscriber) {
 
 // Op is one operation of a history (JSON form is the replay format).
 type Op struct {
-	K string `json:"k"`           // sub | unsub | ret | q | qr
+	K string `json:"k"`           // sub | unsub | unsuball | ret | q | qr
 	S int    `json:"s,omitempty"` // subscriber index (sub, unsub)
 	F string `json:"f"`           // filter (sub, unsub, qr) or topic name (ret, q)
 	Q byte   `json:"q,omitempty"` // subscription QoS (sub), message QoS (ret), publish QoS (q)
@@ -76,6 +76,8 @@ func (o Op) String() string {
 		return fmt.Sprintf("Subscribe(%q, qos %d, s%d)", o.F, o.Q, o.S)
 	case "unsub":
 		return fmt.Sprintf("Unsubscribe(%q, s%d)", o.F, o.S)
+	case "unsuball":
+		return fmt.Sprintf("Unsubscribe(%q, nil) [all subscribers of the filter]", o.F)
 	case "ret":
 		if len(o.P) == 0 {
 			return fmt.Sprintf("Retain(%q, empty payload)", o.F)
@@ -99,7 +101,7 @@ func inDomain(o Op) bool {
 	switch o.K {
 	case "sub":
 		return true // any string, valid or not
-	case "unsub", "qr":
+	case "unsub", "unsuball", "qr":
 		return match.ValidFilter(o.F)
 	case "ret", "q":
 		return match.ValidName(o.F)
@@ -191,6 +193,14 @@ func (m *specModel) apply(o Op) string {
 		return "ok:" + strconv.Itoa(int(o.Q))
 	case "unsub":
 		delete(m.subs, subKey{o.S, o.F})
+	case "unsuball":
+		// Unsubscribe(filter, nil): the form the client library uses - every
+		// subscriber of exactly this filter is removed, nothing else
+		for k := range m.subs {
+			if k.f == o.F {
+				delete(m.subs, k)
+			}
+		}
 	case "ret":
 		if len(o.P) == 0 {
 			delete(m.ret, o.F)
@@ -352,6 +362,13 @@ func (m *machine) apply(o Op) {
 		m.last = m.subscribe(o.S, o.F, o.Q)
 	case "unsub":
 		m.unsubscribe(o.S, o.F)
+	case "unsuball":
+		for again := true; again; {
+			again = false
+			for s := 0; s < maxSubs; s++ {
+				m.unsubscribe(s, o.F)
+			}
+		}
 	case "ret":
 		if len(o.P) == 0 {
 			m.clear(o.F)
@@ -799,6 +816,8 @@ func (e *engine) apply(o Op) *failure {
 	case "unsub":
 		// "error expected or tolerated": only the state afterwards is judged
 		e.p.Unsubscribe([]byte(o.F), idents[o.S])
+	case "unsuball":
+		e.p.Unsubscribe([]byte(o.F), nil)
 	case "ret":
 		m := message.NewPublishMessage()
 		m.SetTopic([]byte(o.F))
@@ -1075,6 +1094,19 @@ func run(c Case, known func(string) bool) (out outcome) {
 			for k := range e.spec.subs {
 				if k.f == o.F && k.s != o.S {
 					classes["shared-filter"] = true
+				}
+			}
+		case "unsuball":
+			n := 0
+			for k := range e.spec.subs {
+				if k.f == o.F {
+					n++
+				}
+			}
+			if n > 0 {
+				classes["unsubscribe-all-of-a-filter"] = true
+				if len(listOf(o.F)) > 0 {
+					out.NonTrivial = true
 				}
 			}
 		case "unsub":
@@ -1501,6 +1533,16 @@ func genCase(t *rapid.T) Case {
 			var rest []liveSub
 			for _, x := range live {
 				if x.s != l.s || x.f != l.f {
+					rest = append(rest, x)
+				}
+			}
+			live = rest
+		case r < 66 && rapid.IntRange(0, 2).Draw(t, "all") == 0 && len(live) > 0: // remove every subscriber of a live filter
+			o := Op{K: "unsuball", F: live[rapid.IntRange(0, len(live)-1).Draw(t, "alli")].f}
+			c.Ops = append(c.Ops, o)
+			var rest []liveSub
+			for _, x := range live {
+				if x.f != o.F {
 					rest = append(rest, x)
 				}
 			}
